@@ -364,8 +364,25 @@ func runC17(c *Ctx) {
 		if add != nil && len(upd.Params) >= 3 {
 			oldPar, newPar := ssa.Value(upd.Params[len(upd.Params)-2]), ssa.Value(upd.Params[len(upd.Params)-1])
 			okAdd := true
+			// as a path fact (a single merged return is dominated by neither): no return is reachable without passing
+			// the Add, other than over the edge on which old == new
+			pathOK := reachAvoidEdges(upd.Blocks[0], isReturn, func(i ssa.Instruction) bool { return i == ssa.Instruction(add) }, func(b *ssa.BasicBlock, succ int) bool {
+				iff, ok := b.Instrs[len(b.Instrs)-1].(*ssa.If)
+				if !ok {
+					return true
+				}
+				cond, val := peelNot(iff.Cond, succ == 0)
+				cmp, ok := cond.(*ssa.BinOp)
+				if !ok || (cmp.Op != token.EQL && cmp.Op != token.NEQ) {
+					return true
+				}
+				if !((cmp.X == oldPar && cmp.Y == newPar) || (cmp.X == newPar && cmp.Y == oldPar)) {
+					return true
+				}
+				return val != (cmp.Op == token.EQL) // the "same directory" edge is not followed
+			}) == nil
 			for _, r := range returnsOf(upd) {
-				if domI(add, r) {
+				if pathOK || domI(add, r) {
 					continue
 				}
 				same := false
